@@ -146,6 +146,7 @@ pub fn gen_op(rng: &mut Rng, n: usize, len: usize, allow_forget: bool) -> Op {
 
 pub fn random<const N: usize, P: Pad>(ctx: &mut Ctx) {
     let total = ctx.args.num("ops", 20_000);
+    ctx.can_skip = false;
     let _ = items_off::<N, P>();
     let mut rng = Rng::new(ctx.args.seed ^ hash64(&format!("random|{}|{}|{}", N, P::NAME, ctx.args.shard.0)));
     let big = N > 32;
@@ -162,49 +163,53 @@ pub fn random<const N: usize, P: Pad>(ctx: &mut Ctx) {
             N, P::NAME, ctx.args.seed, ctx.args.shard.0, done, route_name(route), start, len0
         );
         let _ = ctx.begin_case(|| desc);
-        ledger_reset();
-        let (mut h, mut model) = build::<N, P>(route, start, len0, Some(0x5A), &mut vc);
-        let mut env = Env::<N, P>::new(vc);
-        let mut pre = observe(h.buf_ref());
-        if pre.pairs() != model {
-            ctx.violation("C01", format!("op=build:{}|ncap={}|wrong_contents", route_name(route), ncls(N)), format!("builder mismatch; case={}", ctx.cur_case));
-            std::mem::forget(h);
-            done += hist;
-            continue;
-        }
-        let mut leaked = false;
-        for i in 0..hist {
-            let op = gen_op(&mut rng, N, model.len(), true);
-            let full = !big || (i % 64 == 0);
-            let mon = if full { MonCfg::FULL } else { MonCfg::LIGHT };
-            let lay = measured_layout(h.buf_ref(), &pre);
-            let out = step(&mut h, &mut model, &op, &mut env, ctx, &mon, None, Some(&pre));
-            if matches!(op, Op::Drain(_, _, End::Forget)) {
-                leaked = true;
+        let res = std::panic::catch_unwind(std::panic::AssertUnwindSafe(|| {
+            ledger_reset();
+            let (mut h, mut model) = build::<N, P>(route, start, len0, Some(0x5A), &mut vc);
+            let mut env = Env::<N, P>::new(vc);
+            let mut pre = observe(h.buf_ref());
+            if pre.pairs() != model {
+                ctx.violation("C01", format!("op=build:{}|ncap={}|wrong_contents", route_name(route), ncls(N)), format!("builder mismatch; case={}", ctx.cur_case));
+                std::mem::forget(h);
+                return;
             }
-            // distinct (N, layout class or exact small layout, op, argument class)
-            let lkey = if N <= 16 { format!("{:?}", lay) } else { layout_class(N, lay, pre.ids.len()).to_string() };
-            let akey = op_arg_class(&op, pre.ids.len(), N);
-            if op.is_mutator() || out.panicked {
-                ctx.distinct.insert(hash64(&format!("{}|{}|{}|{}|{}", N, P::NAME, lkey, op.name(), akey)));
-            }
-            if let Some((s, l)) = lay {
-                if N <= 64 {
-                    ctx.layouts.insert(hash64(&format!("{}|{}|{}|{}", N, P::NAME, s, l)));
-                } else {
-                    ctx.layouts.insert(hash64(&format!("{}|{}|{}|{}", N, P::NAME, s * 16 / N, l * 16 / N)));
+            let mut leaked = false;
+            for i in 0..hist {
+                let op = gen_op(&mut rng, N, model.len(), true);
+                let full = !big || (i % 64 == 0);
+                let mon = if full { MonCfg::FULL } else { MonCfg::LIGHT };
+                let lay = measured_layout(h.buf_ref(), &pre);
+                let out = step(&mut h, &mut model, &op, &mut env, ctx, &mon, None, Some(&pre));
+                if matches!(op, Op::Drain(_, _, End::Forget)) {
+                    leaked = true;
+                }
+                // distinct (N, layout class or exact small layout, op, argument class)
+                let lkey = if N <= 16 { format!("{:?}", lay) } else { layout_class(N, lay, pre.ids.len()).to_string() };
+                let akey = op_arg_class(&op, pre.ids.len(), N);
+                if op.is_mutator() || out.panicked {
+                    ctx.distinct.insert(hash64(&format!("{}|{}|{}|{}|{}", N, P::NAME, lkey, op.name(), akey)));
+                }
+                if let Some((s, l)) = lay {
+                    if N <= 64 {
+                        ctx.layouts.insert(hash64(&format!("{}|{}|{}|{}", N, P::NAME, s, l)));
+                    } else {
+                        ctx.layouts.insert(hash64(&format!("{}|{}|{}|{}", N, P::NAME, s * 16 / N, l * 16 / N)));
+                    }
+                }
+                pre = observe(h.buf_ref());
+                if pre.pairs() != model {
+                    // step() already reported; resync
+                    model = pre.pairs();
                 }
             }
-            pre = observe(h.buf_ref());
-            if pre.pairs() != model {
-                // step() already reported; resync
-                model = pre.pairs();
-            }
+            vc = env.vc;
+            teardown(h, ctx, "history", None, leaked);
+        }));
+        if res.is_err() {
+            ctx.record_escaped_panic();
         }
         done += hist;
         ctx.evaluations += hist - 1;
-        vc = env.vc;
-        teardown(h, ctx, "history", None, leaked);
     }
 }
 
